@@ -199,6 +199,17 @@ def check(run, prog):
             bad = bad or f"arguments {a}: no message names {miss!r}"
         elif any(s == "OK" for _, s, _ in files):
             bad = bad or f"arguments {a}: verdicts are printed although the run aborts"
+    # ... whatever the options: with --use-gitignore too, also when the missing name matches an ignore pattern (git answers
+    # from the name alone) or lies under an ignored directory
+    for a, ign in ((["nope.c"], ["nope.c"]), (["a.c", "gen_missing.c"], ["gen_missing.c"]), (["build/x.c"], ["build"]), (["nope.c"], [])):
+        o, vfs = runs.run(T1, a, extra=[("--use-gitignore", [])], ignored=ign)
+        miss = expected(vfs, a)[2]
+        if o.crash is not None:
+            bad = bad or f"arguments {a} with --use-gitignore (ignored {ign}): the run crashes ({o.crash})"
+        elif o.status == 0:
+            bad = bad or f"arguments {a} with --use-gitignore (ignored {ign}): exit status 0"
+        elif miss not in (o.stdout + o.stderr):
+            bad = bad or f"arguments {a} with --use-gitignore (ignored {ign}): no message names {miss!r}"
     run.ob("R-15.2", f"{main.key}::missing-path-exit", bad is None,
            f"a nonexistent path does not end the run with a message and a non-zero status on every path: {bad}", ex)
     bad = None
